@@ -134,7 +134,7 @@ theorem step_mkdir (s : Sys) (p : P) (inv : InvRec s.fs s.k s.lib) (hs : s.stopp
     rcases FS.mem_add.mp he with h | h
     · exact Or.inl ⟨trivial, h⟩
     · exact Or.inr h
-  · apply step_simple s _ inv hs hc (s.fs.add p true) [] (fun _ => parentOf p)
+  · refine step_simple s _ inv hs hc (s.fs.add p true) [] (fun _ => parentOf p) ⟨?_, ?_, ?_, ?_, ?_, ?_, ?_⟩
     · simp [kernelOp, hrec, FS.add]
     · simp
     · exact hwf1
